@@ -12,6 +12,12 @@ History ops (JSON; keys are the literal keys of the builder: 0 = TRUE, null = FA
     ["dis", m, k]                                 add_disjunct(m, k)        (m: key of a mutable node)
     ["neg", k]                                    negate(k)
     ["name", name, k, label]                      add_name(Term(name), k, label)
+
+Exploration = for every builder configuration of the tier, every atom variant and every *plan*
+(menu level per depth, see PLANS and C11.rule) one BFS, sharded over the first-level calls.  The
+oracle is ``Model`` + ``graph_tables``; ``Run.step`` is the single place where the real builder is
+called and compared.  Violations are shrunk on a symbolic form of the history (``symbolize`` /
+``concretize``: references to "the result of call j") so that dropping a call re-keys the rest.
 """
 import collections
 import hashlib
@@ -1295,7 +1301,6 @@ def precheck():
     ex = Explorer({}, "plain", [M, N, N])
     seen = 0
     graphs = []
-    orig = Run.state
 
     def apply(h):
         r, err, inv = run_history({}, h, check_all=True)
